@@ -1432,9 +1432,16 @@ def _log1(x):
     return SV(E.uf('LOG', E.R, E.R)(E._rv(x)))
 
 
+# when a list, every symbolic argument handed to exp() is recorded (range
+# obligations of the estimator harnesses: float64 exp overflows above 709.78)
+EXP_ARGS = None
+
+
 def _exp1(x):
     if is_sv(x):
         t = E._toreal(x.t)
+        if EXP_ARGS is not None:
+            EXP_ARGS.append(x)
         r = SV(E.uf('EXP', E.R, E.R)(t))
         eng = E.cur()
         eng.assume(r > 0)
